@@ -25,7 +25,7 @@ type c01Drop struct{ v any }
 
 func (d c01Drop) ToLiquid() any { return d.v }
 
-const c01Receivers = 21
+const c01Receivers = 27
 
 // c01Receiver returns the k-th receiver of the boundary universe (concrete: many filters
 // print their receiver, and printing is native).
@@ -71,6 +71,23 @@ func c01Receiver(k int) any {
 		return c01Drop{nil}
 	case 20:
 		return map[any]any{"k": []any{1}, 2: "x"}
+	case 21:
+		// equal Go arrays holding slices: comparable by type, not by value
+		return []any{[1]any{[]int{1}}, [1]any{[]int{1}}, nil}
+	case 22:
+		return []any{struct{ X any }{map[string]any{"a": 1}}, struct{ X any }{map[string]any{"a": 1}}}
+	case 23:
+		return values.NewRange(math.MaxInt64-1, math.MaxInt64)
+	case 24:
+		return values.NewRange(-1, math.MaxInt64)
+	case 25:
+		n := 7
+		return []any{&n, (*int)(nil), &struct {
+			A *int
+			B []any
+		}{nil, []any{nil}}}
+	case 26:
+		return []byte("a\xffb")
 	default:
 		return []string{"b", "", "a"}
 	}
